@@ -40,7 +40,7 @@ class Guards:
                 continue
             ctors = [f for f in prog.methods_of(name) if f.kind == 'ctor' and (f.d.get('inits') or f.body)]
             if ctors and not [f for f in prog.methods_of(name) if f.kind == 'dtor' and f.body] and \
-                    any(self.base_name(f_.get('type')) in self.recs for f_ in rec.get('fields', [])):
+                    any(self.base_name(f_.get('type')) in self.recs and not (f_.get('type') or '').rstrip().endswith(('&', '*')) for f_ in rec.get('fields', [])):
                 self.comp[name] = (rec, ctors)
         self._sum = {}
         self._inner = {}
@@ -124,7 +124,8 @@ class Guards:
                 if prm_:
                     init = {'k': 'ref', 'kind': 'param', 'id': prm_[0]['id'], 'name': nm_}
             inner_t = self.base_name(ftypes.get(i['member'], ''))
-            if inner_t in self.recs and SX.is_node(init):
+            ft_ = ftypes.get(i['member'], '').rstrip()
+            if inner_t in self.recs and SX.is_node(init) and not ft_.endswith('&') and not ft_.endswith('*'):
                 # a member that is itself a guard: it saves (and its destructor restores) what it is constructed over
                 ia = SX.real_args(init) if init.get('k') in ('construct', 'call') else ([init] if init.get('k') not in ('initlist',) else init.get('items', []))
                 irec, ictors, idtor = self.recs[inner_t]
